@@ -48,12 +48,23 @@ func init() {
 // ---------------------------------------------------------------- recorder
 
 type c17Rec struct {
-	mu  sync.Mutex
-	evs []map[string]any
+	mu     sync.Mutex
+	evs    []map[string]any
+	sealed bool // the run is being torn down: late goroutines no longer record
+}
+
+func (r *c17Rec) seal() {
+	r.mu.Lock()
+	r.sealed = true
+	r.mu.Unlock()
 }
 
 func (r *c17Rec) emit(ev map[string]any, do func()) {
 	r.mu.Lock()
+	if r.sealed {
+		r.mu.Unlock()
+		return
+	}
 	r.evs = append(r.evs, ev)
 	if do != nil {
 		do()
@@ -116,7 +127,9 @@ func (l *c17Listener) Accept() (net.Conn, error) {
 	l.queue = l.queue[1:]
 	l.released--
 	l.accepts++
-	l.rec.evs = append(l.rec.evs, map[string]any{"e": "accept", "i": q.idx})
+	if !l.rec.sealed {
+		l.rec.evs = append(l.rec.evs, map[string]any{"e": "accept", "i": q.idx})
+	}
 	return q.conn, nil
 }
 
@@ -124,7 +137,7 @@ func (l *c17Listener) Close() error {
 	l.rec.mu.Lock()
 	if !l.closed {
 		l.closed = true
-		if !l.quiet {
+		if !l.quiet && !l.rec.sealed {
 			l.rec.evs = append(l.rec.evs, map[string]any{"e": "lclose"})
 		}
 		for _, q := range l.queue {
@@ -150,7 +163,9 @@ func (l *c17Listener) enqueue(ev string, idx int, conn net.Conn) bool {
 	if ev == "arrive" {
 		e["i"] = idx
 	}
-	l.rec.evs = append(l.rec.evs, e)
+	if !l.rec.sealed {
+		l.rec.evs = append(l.rec.evs, e)
+	}
 	if ok {
 		l.queue = append(l.queue, c17Queued{idx, conn})
 		l.cond.Broadcast()
@@ -757,6 +772,7 @@ func (r *c17Run) drainTaps() {
 }
 
 func (r *c17Run) close() {
+	r.rec.seal()
 	r.teardown.Store(true)
 	if r.lis != nil {
 		r.lis.rec.mu.Lock()
@@ -996,6 +1012,12 @@ func (r *c17Run) step(a string, i int) {
 	case "cfwd":
 		r.cfwd(5 * time.Second)
 	case "crep":
+		if r.outcome == "good" && (r.replyBytes == nil || r.cb == nil) {
+			return // the run went another (valid) way than the model's ordering: nothing to deliver
+		}
+		if r.outcome != "good" && (r.cb == nil || !r.cbReader.Load()) {
+			return
+		}
 		if r.outcome == "good" {
 			r.rec.emit(map[string]any{"e": "creply", "cls": "hello"}, nil)
 			_ = r.cb.SetWriteDeadline(time.Now().Add(5 * time.Second))
@@ -1022,6 +1044,10 @@ func (r *c17Run) step(a string, i int) {
 			c17WaitFor(func() bool { return r.cbClosed.Load() || r.signalled("act") }, 3*time.Second)
 		}
 	case "peof":
+		// only after the server was seen to close connection 1
+		if r.sa == nil || r.obs1() != "closed" {
+			return
+		}
 		r.rec.emit(map[string]any{"e": "peof"}, func() { r.pclosed = true })
 		if r.cb != nil {
 			r.cb.Close()
@@ -1624,6 +1650,7 @@ func c17RunTCP(p *c17TCPPlan, base string) ([]map[string]any, map[string]any, er
 	r.drainTaps()
 	info := map[string]any{"id": p.ID, "hung": hung, "aux": r.aux, "notes": r.notes, "upload": r.upload,
 		"conn_port": r.connPort.Load(), "port": r.port, "act_tunnel": r.actTunnel}
+	r.rec.seal()
 	r.teardown.Store(true)
 	listener.Close()
 	r.close()
@@ -1960,6 +1987,7 @@ func c17RunRelay(p *c17TCPPlan, base string) ([]map[string]any, map[string]any, 
 	info := map[string]any{"id": p.ID, "hung": hung, "aux": r.aux, "notes": r.notes, "upload": r.upload,
 		"conn_port": r.connPort.Load(), "port": rport, "act_tunnel": r.actTunnel,
 		"ms_setup": tA.Sub(t0).Milliseconds(), "ms_transfer": tB.Sub(tA).Milliseconds(), "ms_final": time.Since(tB).Milliseconds()}
+	r.rec.seal()
 	r.teardown.Store(true)
 	listener.Close()
 	r.close()
